@@ -78,16 +78,40 @@ Definition advance_suspend_lk_old (s : pubq) (h : nat) (a : Z) : pubq * bool :=
 (* get_value_lk, lines 233-253.  _q[i] with i >= _q.size() is undefined behaviour: GUb *)
 Inductive gres := GVal (v : Z) | GEos | GUb.
 Definition qidx (q : list Z) (i : Z) : gres :=
-  match nth_error q (Z.to_nat i) with Some v => GVal v | None => GUb end.
+  if (0 <=? i) && (i <? zlen q)
+  then match nth_error q (Z.to_nat i) with Some v => GVal v | None => GUb end
+  else GUb.
 
-Definition get_value_lk (s : pubq) (h : nat) (t : Z) : gres :=
+(* get_value_lk as it is now (after fixes/C16-skip-dup): the skipping modes move the reader to the value they return,
+   and a reader at or behind the end of the stream gets end of stream in every mode *)
+Definition get_value_lk (s : pubq) (h : nat) (t : Z) : pubq * gres :=
   let l := rget (regs s) h in
-  if r_kicked l || (r_pos l =? qpos s) then GEos else                  (* 235 *)
-  let relpos := wrap (qpos s - r_pos l - 1) in                         (* 239 / 244 *)
+  if r_kicked l || (qpos s <=? r_pos l) then (s, GEos) else              (* l._kicked || l._pos >= _pos *)
+  let relpos := wrap (qpos s - r_pos l - 1) in
   if t =? 1 then
-    qidx (qd s) (if zlen (qd s) <=? relpos then wrap (zlen (qd s) - 1) else relpos)   (* 245-246 *)
-  else if t =? 2 then qidx (qd s) 0                                    (* 249 *)
-  else if zlen (qd s) <=? relpos then GEos else qidx (qd s) relpos.    (* 240-241 *)
+    if zlen (qd s) <=? relpos then                                       (* clamp to the oldest retained value *)
+      let rp := wrap (zlen (qd s) - 1) in
+      match qidx (qd s) rp with
+      | GVal v => (set_reg s h (with_pos l (wrap (qpos s - rp - 1))), GVal v)   (* l._pos = _pos - relpos - 1 *)
+      | g => (s, g)
+      end
+    else (s, qidx (qd s) relpos)
+  else if t =? 2 then
+    match qidx (qd s) 0 with
+    | GVal v => (set_reg s h (with_pos l (wrap (qpos s - 1))), GVal v)   (* l._pos = _pos - 1; return _q[0] *)
+    | g => (s, g)
+    end
+  else if zlen (qd s) <=? relpos then (s, GEos) else (s, qidx (qd s) relpos).
+
+(* the same function before fixes/C16-skip-dup (regression witness only) *)
+Definition get_value_lk_old (s : pubq) (h : nat) (t : Z) : pubq * gres :=
+  let l := rget (regs s) h in
+  if r_kicked l || (r_pos l =? qpos s) then (s, GEos) else
+  let relpos := wrap (qpos s - r_pos l - 1) in
+  if t =? 1 then
+    (s, qidx (qd s) (if zlen (qd s) <=? relpos then wrap (zlen (qd s) - 1) else relpos))
+  else if t =? 2 then (s, qidx (qd s) 0)
+  else if zlen (qd s) <=? relpos then (s, GEos) else (s, qidx (qd s) relpos).
 
 (* push_lk, lines 255-275.  The loop 259-267 has three independent effects, written as three functions:
    clear every used slot's awaiter, collect those awaiters in slot order, and compute need_len. *)
@@ -135,10 +159,11 @@ Definition kick_lk (s : pubq) (sub : Z) : pubq * list Z :=
 (* ====================== test level: subscriber objects and the op alphabet ====================== *)
 (* A subscriber<T> object: its handle _h, its mode _t; s_live = false after its destructor ran.
    Object ids (sid) are chosen by the op and never reused; the id is also the `const subscriber*`
-   identity handed to the queue. *)
-Record sobj := mkSo { s_h : nat; s_mode : Z; s_live : bool }.
-Record tst := mkT { pq : pubq; objs : list (option sobj); nawt : Z }.
-Definition tst0 (mn mx : Z) : tst := mkT (pubq0 mn mx) [] 0.
+   identity handed to the queue.  palive = the publisher<T> object still exists (its destructor closes
+   the queue; the queue itself lives on through the subscribers' shared_ptr). *)
+Record sobj := mkSo { s_h : nat; s_mode : Z; s_live : bool; s_blk : bool }.   (* s_blk: a thread is parked inside a blocking next() *)
+Record tst := mkT { pq : pubq; objs : list (option sobj); nawt : Z; palive : bool }.
+Definition tst0 (mn mx : Z) : tst := mkT (pubq0 mn mx) [] 0 true.
 
 Inductive op :=
 | OPub (v : Z)                  (* publisher::publish(v) *)
@@ -147,12 +172,16 @@ Inductive op :=
 | OSubAt (s : nat) (t p : Z)    (* subscriber(pub, p, t) *)
 | OSubCopy (s src : nat)        (* subscriber(const subscriber &src) *)
 | OReady (s : nat)              (* next().await_ready()  = queue::advance *)
-| OSuspend (s : nat)            (* next().subscribe(awt) = queue::advance_suspend; awt gets id nawt *)
+| OSuspend (s : nat)            (* next().subscribe(awt) / await_suspend = queue::advance_suspend; awt gets id nawt *)
 | OGet (s : nat)                (* next().await_resume() = queue::get_value *)
-| OKick (s : nat)               (* publisher::kick(&s) — s may already be destroyed *)
+| OKick (s : nat)               (* publisher::kick(&s) (s may already be destroyed) / s.kick_me() *)
 | OLeave (s : nat)              (* ~subscriber *)
-| OClose
-| OPosition (s : nat)
+| OClose                        (* publisher::close() *)
+| OPosition (s : nat)           (* subscriber::position() *)
+| ODestroyPub                   (* ~publisher *)
+| OBlock (s : nat)              (* bool(next()) / begin() on a helper thread: runs until it returns or parks *)
+| OBlockFin (s : nat)           (* lets the parked helper thread of s (woken meanwhile) return *)
+| OPoll (s : nat)               (* next_ready() *)
 | OBad.
 
 (* observation: status (0 ok, 1 rejected, -999 undefined behaviour), three scalars, resumed awaiter ids *)
@@ -167,28 +196,38 @@ Definition live_obj (e : tst) (s : nat) : option sobj :=
   | Some o => if s_live o then Some o else None
   | None => None
   end.
+(* live and no thread parked inside a blocking next() on it *)
+Definition free_obj (e : tst) (s : nat) : option sobj :=
+  match live_obj e s with
+  | Some o => if s_blk o then None else Some o
+  | None => None
+  end.
 Definition valid_mode (t : Z) : bool := (0 <=? t) && (t <=? 2).
 Definition HALF : Z := 4611686018427387904.   (* 2^62: positions on the wire are below this *)
 Definition pos_of (s : pubq) (h : nat) : Z := r_pos (rget (regs s) h).   (* queue::position, line 101 *)
 
+Definition with_pq (e : tst) (q : pubq) : tst := mkT q (objs e) (nawt e) (palive e).
 Definition new_sub (e : tst) (s : nat) (t : Z) (r : pubq * nat) : tst * obs :=
-  let '(q1, h) := r in
-  (mkT q1 (put (objs e) s (Some (mkSo h t true))) (nawt e), ok3 (Z.of_nat h) (pos_of q1 h) 0).
+  (mkT (fst r) (put (objs e) s (Some (mkSo (snd r) t true false))) (nawt e) (palive e),
+   ok3 (Z.of_nat (snd r)) (pos_of (fst r) (snd r)) 0).
 
-(* `sus` is the advance_suspend_lk variant (current code / code before the fix) *)
-Definition step_gen (sus : pubq -> nat -> Z -> pubq * bool) (e : tst) (x : op) : tst * obs :=
+(* `sus` / `gv` are the advance_suspend_lk / get_value_lk variants (current code / code before the fixes) *)
+Definition step_gen (sus : pubq -> nat -> Z -> pubq * bool) (gv : pubq -> nat -> Z -> pubq * gres)
+                    (e : tst) (x : op) : tst * obs :=
   match x with
-  | OPub v => let '(q1, w) := push1 (pq e) v in (mkT q1 (objs e) (nawt e), okw w)
-  | OBatch vs => let '(q1, w) := push_batch (pq e) vs in (mkT q1 (objs e) (nawt e), okw w)
+  | OPub v => if palive e then (with_pq e (fst (push1 (pq e) v)), okw (snd (push1 (pq e) v))) else (e, rejected)
+  | OBatch vs => if palive e then (with_pq e (fst (push_batch (pq e) vs)), okw (snd (push_batch (pq e) vs)))
+                 else (e, rejected)
   | OSubRecent s t =>
       match get (objs e) s with
       | Some _ => (e, rejected)
-      | None => if valid_mode t then new_sub e s t (subscribe_recent_lk (pq e) (Z.of_nat s)) else (e, rejected)
+      | None => if valid_mode t && palive e then new_sub e s t (subscribe_recent_lk (pq e) (Z.of_nat s))
+                else (e, rejected)
       end
   | OSubAt s t p =>
       match get (objs e) s with
       | Some _ => (e, rejected)
-      | None => if valid_mode t && (0 <=? p) && (p <? HALF)
+      | None => if valid_mode t && palive e && (0 <=? p) && (p <? HALF)
                 then new_sub e s t (subscribe_lk (pq e) (Z.of_nat s) p) else (e, rejected)
       end
   | OSubCopy s src =>
@@ -197,56 +236,103 @@ Definition step_gen (sus : pubq -> nat -> Z -> pubq * bool) (e : tst) (x : op) :
       | _, _ => (e, rejected)
       end
   | OReady s =>
-      match live_obj e s with
+      match free_obj e s with
       | None => (e, rejected)
-      | Some o => let '(q1, b) := advance_lk (pq e) (s_h o) (s_mode o) in
-                  (mkT q1 (objs e) (nawt e), ok3 (b2z b) (pos_of q1 (s_h o)) 0)
+      | Some o => let r := advance_lk (pq e) (s_h o) (s_mode o) in
+                  (with_pq e (fst r), ok3 (b2z (snd r)) (pos_of (fst r) (s_h o)) 0)
       end
   | OSuspend s =>
-      match live_obj e s with
+      match free_obj e s with
       | None => (e, rejected)
-      | Some o => let '(q1, b) := sus (pq e) (s_h o) (nawt e) in
-                  (mkT q1 (objs e) (nawt e + 1), ok3 (b2z b) (pos_of q1 (s_h o)) (nawt e))
+      | Some o => let r := sus (pq e) (s_h o) (nawt e) in
+                  (mkT (fst r) (objs e) (nawt e + 1) (palive e), ok3 (b2z (snd r)) (pos_of (fst r) (s_h o)) (nawt e))
       end
   | OGet s =>
-      match live_obj e s with
+      match free_obj e s with
       | None => (e, rejected)
-      | Some o => match get_value_lk (pq e) (s_h o) (s_mode o) with
-                  | GVal v => (e, ok3 1 v (pos_of (pq e) (s_h o)))
-                  | GEos => (e, ok3 0 0 (pos_of (pq e) (s_h o)))
+      | Some o => let r := gv (pq e) (s_h o) (s_mode o) in
+                  match snd r with
+                  | GVal v => (with_pq e (fst r), ok3 1 v (pos_of (fst r) (s_h o)))
+                  | GEos => (with_pq e (fst r), ok3 0 0 (pos_of (fst r) (s_h o)))
                   | GUb => (e, ub_obs)
                   end
       end
   | OKick s =>
       match get (objs e) s with
       | None => (e, rejected)
-      | Some _ => let '(q1, w) := kick_lk (pq e) (Z.of_nat s) in (mkT q1 (objs e) (nawt e), okw w)
+      | Some o => if palive e || s_live o
+                  then (with_pq e (fst (kick_lk (pq e) (Z.of_nat s))), okw (snd (kick_lk (pq e) (Z.of_nat s))))
+                  else (e, rejected)
       end
   | OLeave s =>
-      match live_obj e s with
+      match free_obj e s with
       | None => (e, rejected)
-      | Some o => (mkT (leave_lk (pq e) (s_h o)) (put (objs e) s (Some (mkSo (s_h o) (s_mode o) false))) (nawt e),
-                   ok3 0 0 0)
+      | Some o => (mkT (leave_lk (pq e) (s_h o)) (put (objs e) s (Some (mkSo (s_h o) (s_mode o) false false))) (nawt e)
+                       (palive e), ok3 0 0 0)
       end
-  | OClose => let '(q1, w) := close_q (pq e) in (mkT q1 (objs e) (nawt e), okw w)
+  | OClose => if palive e then (with_pq e (fst (close_q (pq e))), okw (snd (close_q (pq e)))) else (e, rejected)
   | OPosition s =>
       match live_obj e s with
       | None => (e, rejected)
       | Some o => (e, ok3 (pos_of (pq e) (s_h o)) 0 0)
       end
+  | ODestroyPub => if palive e then (mkT (fst (close_q (pq e))) (objs e) (nawt e) false, okw (snd (close_q (pq e))))
+                   else (e, rejected)
+  | OBlock _ | OBlockFin _ | OPoll _ => (e, rejected)      (* composite: see stepx_gen *)
   | OBad => (e, rejected)
   end.
 
-Definition step := step_gen advance_suspend_lk.
-Definition step_old := step_gen advance_suspend_lk_old.
+Definition step := step_gen advance_suspend_lk get_value_lk.
 
-Fixpoint run_gen (sus : pubq -> nat -> Z -> pubq * bool) (e : tst) (l : list op) : list obs * tst :=
+(* composite operations are sequences of the locked steps above; every locked step prints its own observation
+   line.  bool(next()) = operator bool: await_ready, and if not ready sync() = await_ready again, subscribe,
+   (block), then await_resume.  next_ready() = await_ready, and if ready await_resume. *)
+Definition set_blk (e : tst) (s : nat) (o : sobj) (b : bool) : tst :=
+  mkT (pq e) (put (objs e) s (Some (mkSo (s_h o) (s_mode o) (s_live o) b))) (nawt e) (palive e).
+Definition bump (e : tst) : tst := mkT (pq e) (objs e) (nawt e + 1) (palive e).
+
+Definition stepx_gen (sus : pubq -> nat -> Z -> pubq * bool) (gv : pubq -> nat -> Z -> pubq * gres)
+                     (e : tst) (x : op) : tst * list obs :=
+  let st := step_gen sus gv in
+  match x with
+  | OBlock s =>
+      match free_obj e s with
+      | None => (e, [rejected])
+      | Some o =>
+          let r1 := st e (OReady s) in
+          if o_a (snd r1) =? 1 then let g := st (fst r1) (OGet s) in (bump (fst g), [snd r1; snd g]) else
+          let r2 := st (fst r1) (OReady s) in
+          if o_a (snd r2) =? 1 then let g := st (fst r2) (OGet s) in (bump (fst g), [snd r1; snd r2; snd g]) else
+          let r3 := st (fst r2) (OSuspend s) in     (* uses awaiter id nawt e and bumps the counter *)
+          if o_a (snd r3) =? 1 then (set_blk (fst r3) s o true, [snd r1; snd r2; snd r3]) else
+          let g := st (fst r3) (OGet s) in (fst g, [snd r1; snd r2; snd r3; snd g])
+      end
+  | OBlockFin s =>
+      match live_obj e s with
+      | Some o => if s_blk o && match r_awt (rget (regs (pq e)) (s_h o)) with None => true | Some _ => false end
+                  then let g := st (set_blk e s o false) (OGet s) in (fst g, [snd g])
+                  else (e, [rejected])
+      | None => (e, [rejected])
+      end
+  | OPoll s =>
+      match free_obj e s with
+      | None => (e, [rejected])
+      | Some o =>
+          let r1 := st e (OReady s) in
+          if o_a (snd r1) =? 1 then let g := st (fst r1) (OGet s) in (fst g, [snd r1; snd g]) else (fst r1, [snd r1])
+      end
+  | _ => (fst (st e x), [snd (st e x)])
+  end.
+Definition stepx := stepx_gen advance_suspend_lk get_value_lk.
+
+Fixpoint run_gen (sus : pubq -> nat -> Z -> pubq * bool) (gv : pubq -> nat -> Z -> pubq * gres)
+                 (e : tst) (l : list op) : list obs * tst :=
   match l with
   | [] => ([], e)
-  | x :: t => let '(e1, o) := step_gen sus e x in
-              let '(os, e2) := run_gen sus e1 t in (o :: os, e2)
+  | x :: t => let r := run_gen sus gv (fst (stepx_gen sus gv e x)) t in
+              (snd (stepx_gen sus gv e x) ++ fst r, snd r)
   end.
-Definition run_from := run_gen advance_suspend_lk.
+Definition run_from := run_gen advance_suspend_lk get_value_lk.
 
 (* ====================== reference monitor (specification side) ======================
    The monitor sees only ops and observations (never the queue's state).  It keeps the published log,
@@ -258,44 +344,53 @@ Definition run_from := run_gen advance_suspend_lk.
    follow the next() protocol (ready; suspend only after ready=false; get only after ready=true /
    suspend=false / being woken; no destructor while parked), an op that the model rejects was reported as
    executed, undefined behaviour was reported, or a position / the stream length reached 2^62.
-   m_bad (sticky): a wake-up list or a subscription position contradicts the specification. *)
+   m_bad (sticky): a wake-up list or a subscription position contradicts the specification.
+   m_lost r: an end of stream is legitimate for r because it lagged more than max behind (all_values), or it
+   was subscribed at a position outside the guaranteed window / in the future, or it was copied from a
+   subscriber that was lost, ended, kicked or in the middle of next(). *)
 Inductive pc := PIdle | PRF | PAdv | PParked (a : Z).
 Record srec := mkSr { m_live : bool; m_mode : Z; m_pc : pc; m_start : Z; m_cur : Z;
                       m_deliv : list (Z * Z * Z); m_eos : bool; m_eos_ok : bool;
                       m_kicked : bool; m_lost : bool }.
 Record mon := mkM { m_log : list Z; m_closed : bool; m_viol : bool; m_bad : bool;
-                    m_subs : list (option srec); m_woken : list Z; m_min : Z; m_max : Z }.
-Definition mon0 (mn mx : Z) : mon := mkM [] false false false [] [] mn mx.
+                    m_subs : list (option srec); m_min : Z; m_max : Z }.
+Definition mon0 (mn mx : Z) : mon := mkM [] false false false [] mn mx.
 
 Definition npub (m : mon) : Z := zlen (m_log m).
 Definition consumed (r : srec) : Z := m_start r + zlen (m_deliv r).
 
 Definition set_viol (m : mon) : mon :=
-  mkM (m_log m) (m_closed m) true (m_bad m) (m_subs m) (m_woken m) (m_min m) (m_max m).
+  mkM (m_log m) (m_closed m) true (m_bad m) (m_subs m) (m_min m) (m_max m).
 Definition add_bad (m : mon) (b : bool) : mon :=
-  mkM (m_log m) (m_closed m) (m_viol m) (m_bad m || b) (m_subs m) (m_woken m) (m_min m) (m_max m).
+  mkM (m_log m) (m_closed m) (m_viol m) (m_bad m || b) (m_subs m) (m_min m) (m_max m).
 Definition set_sub (m : mon) (s : nat) (r : srec) : mon :=
-  mkM (m_log m) (m_closed m) (m_viol m) (m_bad m) (put (m_subs m) s (Some r)) (m_woken m) (m_min m) (m_max m).
+  mkM (m_log m) (m_closed m) (m_viol m) (m_bad m) (put (m_subs m) s (Some r)) (m_min m) (m_max m).
 
-Definition parked_rec (o : option srec) : list Z :=
+Definition with_pc (r : srec) (p : pc) : srec :=
+  mkSr (m_live r) (m_mode r) p (m_start r) (m_cur r) (m_deliv r) (m_eos r) (m_eos_ok r) (m_kicked r) (m_lost r).
+Definition with_lost (r : srec) (b : bool) : srec :=
+  mkSr (m_live r) (m_mode r) (m_pc r) (m_start r) (m_cur r) (m_deliv r) (m_eos r) (m_eos_ok r) (m_kicked r) b.
+
+(* is the live record parked on awaiter a? *)
+Definition parked_on (a : Z) (o : option srec) : bool :=
   match o with
-  | Some r => if m_live r then match m_pc r with PParked a => [a] | _ => [] end else []
-  | None => []
+  | Some r => m_live r && match m_pc r with PParked b => a =? b | _ => false end
+  | None => false
   end.
-Definition parked_of (l : list (option srec)) : list Z := flat_map parked_rec l.
+(* the awaiter of a live parked record is in w *)
+Definition parked_in (w : list Z) (o : option srec) : bool :=
+  match o with
+  | Some r => if m_live r then match m_pc r with PParked a => memz a w | _ => true end else true
+  | None => true
+  end.
+(* w = exactly the awaiters of the live parked records, each once *)
+Definition wake_all_ok (subs : list (option srec)) (w : list Z) : bool :=
+  nodup_b w && forallb (fun a => existsb (parked_on a) subs) w && forallb (parked_in w) subs.
 
-Definition wake_rec (r : srec) : srec :=
-  match m_pc r with
-  | PParked _ => mkSr (m_live r) (m_mode r) PAdv (m_start r) (m_cur r) (m_deliv r) (m_eos r) (m_eos_ok r)
-                      (m_kicked r) (m_lost r)
-  | _ => r
-  end.
+Definition wake_rec (r : srec) : srec := match m_pc r with PParked _ => with_pc r PAdv | _ => r end.
 (* after a publish of total length n: an all_values subscriber with more than max undelivered values has lagged *)
 Definition lag_rec (n mx : Z) (r : srec) : srec :=
-  if (m_mode r =? 0) && (mx <? n - consumed r)
-  then mkSr (m_live r) (m_mode r) (m_pc r) (m_start r) (m_cur r) (m_deliv r) (m_eos r) (m_eos_ok r)
-            (m_kicked r) true
-  else r.
+  if (m_mode r =? 0) && (mx <? n - consumed r) then with_lost r true else r.
 
 Fixpoint eqlz (a b : list Z) : bool :=
   match a, b with
@@ -306,9 +401,9 @@ Fixpoint eqlz (a b : list Z) : bool :=
 
 (* publish of a non-empty batch / close: every parked awaiter is resumed *)
 Definition mon_wake_all (m : mon) (lg : list Z) (cl : bool) (w : list Z) : mon :=
-  mkM lg cl (m_viol m) (m_bad m || negb (perm_b (parked_of (m_subs m)) w))
+  mkM lg cl (m_viol m) (m_bad m || negb (wake_all_ok (m_subs m) w))
       (map (option_map (fun r => lag_rec (zlen lg) (m_max m) (wake_rec r))) (m_subs m))
-      (m_woken m ++ w) (m_min m) (m_max m).
+      (m_min m) (m_max m).
 
 Definition mon_publish (m : mon) (vs : list Z) (w : list Z) : mon :=
   match vs with
@@ -316,6 +411,8 @@ Definition mon_publish (m : mon) (vs : list Z) (w : list Z) : mon :=
   | _ => if HALF <=? zlen (m_log m) + zlen vs + 1 then set_viol m
          else mon_wake_all m (m_log m ++ vs) (m_closed m) w
   end.
+Definition mon_close (m : mon) (w : list Z) : mon :=
+  if m_closed m then add_bad m (negb (eqlz w [])) else mon_wake_all m (m_log m) true w.
 
 Definition new_rec (t p : Z) (lost : bool) : srec := mkSr true t PIdle p p [] false true false lost.
 Definition in_window (m : mon) (t p : Z) : bool :=
@@ -330,8 +427,8 @@ Definition mon_step (m : mon) (x : op) (o : obs) : mon :=
   match x with
   | OPub v => mon_publish m [v] (o_wk o)
   | OBatch vs => mon_publish m vs (o_wk o)
-  | OClose => if m_closed m then add_bad m (negb (eqlz (o_wk o) []))
-              else mon_wake_all m (m_log m) true (o_wk o)
+  | OClose => mon_close m (o_wk o)
+  | ODestroyPub => mon_close m (o_wk o)
   | OSubRecent s t =>
       match get (m_subs m) s with
       | Some _ => set_viol m
@@ -378,16 +475,21 @@ Definition mon_step (m : mon) (x : op) (o : obs) : mon :=
           match m_pc r with
           | PAdv =>
               if negb (m_live r) then set_viol m else
-              if m_eos r then
-                set_sub m s (mkSr true (m_mode r) PIdle (m_start r) (m_cur r) (m_deliv r) true (m_eos_ok r)
-                                  (m_kicked r) (m_lost r))
-              else if o_a o =? 0 then
+              if o_a o =? 0 then
+                if m_eos r then set_sub m s (with_pc r PIdle) else
                 let drained := if m_mode r =? 0 then consumed r =? npub m else m_cur r =? npub m + 1 in
                 set_sub m s (mkSr true (m_mode r) PIdle (m_start r) (m_cur r) (m_deliv r) true
                                   (m_kicked r || m_lost r || (m_closed m && drained)) (m_kicked r) (m_lost r))
-              else
-                set_sub m s (mkSr true (m_mode r) PIdle (m_start r) (m_cur r)
-                                  ((o_c o, o_b o, npub m) :: m_deliv r) false (m_eos_ok r) (m_kicked r) (m_lost r))
+              else   (* a value, with the position reported after the step *)
+                if HALF <=? o_c o then set_viol m else
+                if m_eos r then   (* after the first end of stream nothing is recorded any more *)
+                  set_sub m s (mkSr true (m_mode r) PIdle (m_start r) (o_c o) (m_deliv r) true (m_eos_ok r)
+                                    (m_kicked r) (m_lost r))
+                else   (* recorded; a kicked subscriber must get end of stream instead *)
+                  add_bad (set_sub m s (mkSr true (m_mode r) PIdle (m_start r) (o_c o)
+                                             ((o_c o, o_b o, npub m) :: m_deliv r) false (m_eos_ok r) (m_kicked r)
+                                             (m_lost r)))
+                          (m_kicked r)
           | _ => set_viol m
           end
       | None => set_viol m
@@ -398,10 +500,9 @@ Definition mon_step (m : mon) (x : op) (o : obs) : mon :=
           if m_live r then
             let exp := match m_pc r with PParked a => [a] | _ => [] end in
             let r1 := wake_rec r in
-            let m1 := set_sub m s (mkSr true (m_mode r1) (m_pc r1) (m_start r1) (m_cur r1) (m_deliv r1)
-                                        (m_eos r1) (m_eos_ok r1) true (m_lost r1)) in
-            mkM (m_log m1) (m_closed m1) (m_viol m1) (m_bad m1 || negb (eqlz exp (o_wk o))) (m_subs m1)
-                (m_woken m1 ++ o_wk o) (m_min m1) (m_max m1)
+            add_bad (set_sub m s (mkSr true (m_mode r1) (m_pc r1) (m_start r1) (m_cur r1) (m_deliv r1)
+                                       (m_eos r1) (m_eos_ok r1) true (m_lost r1)))
+                    (negb (eqlz exp (o_wk o)))
           else add_bad m (negb (eqlz (o_wk o) []))
       | None => set_viol m
       end
@@ -421,13 +522,45 @@ Definition mon_step (m : mon) (x : op) (o : obs) : mon :=
       | Some r => if negb (m_live r) then set_viol m else add_bad m (negb (o_a o =? m_cur r))
       | None => set_viol m
       end
+  | OBlock _ | OBlockFin _ | OPoll _ => set_viol m      (* composite ops are fed line by line, see feed *)
   | OBad => set_viol m
   end.
 
-Fixpoint mon_run (m : mon) (l : list (op * obs)) : mon :=
+(* m_bad also records a malformed trace (a line is missing) *)
+Definition short (m : mon) : mon := add_bad m true.
+
+(* one op consumes its observation lines: a composite op consumes one line per locked step it executed, the
+   next line expected being determined by the previous line *)
+Definition feed1 (m : mon) (x : op) (os : list obs) : mon * list obs :=
+  match os with
+  | o :: r => (mon_step m x o, r)
+  | [] => (short m, [])
+  end.
+Definition is_ok (os : list obs) : bool := match os with o :: _ => o_st o =? 0 | [] => false end.
+Definition ret1 (os : list obs) : bool := match os with o :: _ => o_a o =? 1 | [] => false end.
+
+Definition feed (m : mon) (x : op) (os : list obs) : mon * list obs :=
+  match x with
+  | OBlock s =>
+      if negb (is_ok os) then feed1 m (OReady s) os else
+      let a1 := feed1 m (OReady s) os in
+      if ret1 os then feed1 (fst a1) (OGet s) (snd a1) else
+      let a2 := feed1 (fst a1) (OReady s) (snd a1) in
+      if ret1 (snd a1) then feed1 (fst a2) (OGet s) (snd a2) else
+      let a3 := feed1 (fst a2) (OSuspend s) (snd a2) in
+      if ret1 (snd a2) then a3 else feed1 (fst a3) (OGet s) (snd a3)
+  | OBlockFin s => feed1 m (OGet s) os
+  | OPoll s =>
+      if negb (is_ok os) then feed1 m (OReady s) os else
+      let a1 := feed1 m (OReady s) os in
+      if ret1 os then feed1 (fst a1) (OGet s) (snd a1) else a1
+  | _ => feed1 m x os
+  end.
+
+Fixpoint mon_run (m : mon) (l : list op) (os : list obs) : mon :=
   match l with
-  | [] => m
-  | (x, o) :: t => mon_run (mon_step m x o) t
+  | [] => match os with [] => m | _ => short m end
+  | x :: t => mon_run (fst (feed m x os)) t (snd (feed m x os))
   end.
 
 (* ---------- the judgement on what the monitor recorded ---------- *)
@@ -441,49 +574,52 @@ Fixpoint contig_b (start : Z) (lg : list Z) (d : list (Z * Z * Z)) : bool :=
                       && contig_b start lg t
   end.
 (* skip modes: positions strictly increasing and above the start *)
+Definition last_pos (start : Z) (d : list (Z * Z * Z)) : Z :=
+  match d with [] => start | (p, _, _) :: _ => p end.
 Fixpoint incr_b (start : Z) (d : list (Z * Z * Z)) : bool :=
   match d with
   | [] => true
-  | (p, v, n) :: t => (match t with [] => start <? p | (p', _, _) :: _ => p' <? p end) && incr_b start t
+  | (p, v, n) :: t => (last_pos start t <? p) && incr_b start t
   end.
-(* skip modes: the value is one that was published at a position >= the reported one (strict: exactly there);
-   skip_to_recent: it is the newest value at the time of delivery *)
-Definition skipval_b (strict : bool) (t : Z) (lg : list Z) (x : Z * Z * Z) : bool :=
+(* skip modes (subscriber not subscribed in the future): the value delivered at the reported position is the
+   one published there; skip_to_recent: that position is the newest one at the time of delivery *)
+Definition skipval_b (t : Z) (lg : list Z) (x : Z * Z * Z) : bool :=
   let '(p, v, n) := x in
-  (1 <=? p) && (p <=? n) && (n <=? zlen lg) &&
-  (if strict then v =? nthz lg (p - 1)
-   else if t =? 2 then v =? nthz lg (n - 1)
-   else memz v (firstn (Z.to_nat (n - p + 1)) (skipn (Z.to_nat (p - 1)) lg))).
+  (1 <=? p) && (p <=? n) && (n <=? zlen lg) && (v =? nthz lg (p - 1)) && (if t =? 2 then p =? n else true).
 
-Definition rec_good_b (strict : bool) (lg : list Z) (o : option srec) : bool :=
+Definition rec_good_b (lg : list Z) (o : option srec) : bool :=
   match o with
   | None => true
   | Some r =>
       (if m_mode r =? 0 then contig_b (m_start r) lg (m_deliv r)
-       else incr_b (m_start r) (m_deliv r) && forallb (skipval_b strict (m_mode r) lg) (m_deliv r))
+       else incr_b (m_start r) (m_deliv r) && forallb (skipval_b (m_mode r) lg) (m_deliv r))
       && (negb (m_eos r) || m_eos_ok r)
   end.
 
-Definition good_b (strict : bool) (m : mon) : bool :=
-  negb (m_bad m) && forallb (rec_good_b strict (m_log m)) (m_subs m)
-  && nodup_b (m_woken m ++ parked_of (m_subs m)).
+Definition good_b (m : mon) : bool :=
+  negb (m_bad m) && forallb (rec_good_b (m_log m)) (m_subs m).
 
 (* ---------- wire encoding ---------- *)
 Definition n (z : Z) : nat := Z.to_nat z.
+Definition small (z : Z) : bool := (0 <=? z) && (z <? 1000000).
 Definition decode (l : list Z) : op :=
   match l with
   | [0; v] => OPub v
   | 1 :: vs => OBatch vs
-  | [2; s; t] => if 0 <=? s then OSubRecent (n s) t else OBad
-  | [3; s; t; p] => if 0 <=? s then OSubAt (n s) t p else OBad
-  | [4; s; src] => if (0 <=? s) && (0 <=? src) then OSubCopy (n s) (n src) else OBad
-  | [5; s] => if 0 <=? s then OReady (n s) else OBad
-  | [6; s] => if 0 <=? s then OSuspend (n s) else OBad
-  | [7; s] => if 0 <=? s then OGet (n s) else OBad
-  | [8; s] => if 0 <=? s then OKick (n s) else OBad
-  | [9; s] => if 0 <=? s then OLeave (n s) else OBad
+  | [2; s; t] => if small s then OSubRecent (n s) t else OBad
+  | [3; s; t; p] => if small s then OSubAt (n s) t p else OBad
+  | [4; s; src] => if small s && small src then OSubCopy (n s) (n src) else OBad
+  | [5; s] => if small s then OReady (n s) else OBad
+  | [6; s] => if small s then OSuspend (n s) else OBad
+  | [7; s] => if small s then OGet (n s) else OBad
+  | [8; s] => if small s then OKick (n s) else OBad
+  | [9; s] => if small s then OLeave (n s) else OBad
   | [10] => OClose
-  | [11; s] => if 0 <=? s then OPosition (n s) else OBad
+  | [11; s] => if small s then OPosition (n s) else OBad
+  | [12] => ODestroyPub
+  | [13; s] => if small s then OBlock (n s) else OBad
+  | [14; s] => if small s then OBlockFin (n s) else OBad
+  | [15; s] => if small s then OPoll (n s) else OBad
   | _ => OBad
   end.
 
@@ -503,27 +639,27 @@ Definition cfg_of (l : list Z) : option (Z * Z) :=
   | _ => None
   end.
 
-Definition pub_run_gen (sus : pubq -> nat -> Z -> pubq * bool) (ops : list (list Z)) : list (list Z) :=
+Definition pub_run_gen (sus : pubq -> nat -> Z -> pubq * bool) (gv : pubq -> nat -> Z -> pubq * gres)
+                       (ops : list (list Z)) : list (list Z) :=
   match ops with
   | [] => []
   | c :: t =>
       match cfg_of c with
       | Some (mn, mx) => encode_obs (ok3 mn (nth 1 c 0) 0)
-                         :: map encode_obs (fst (run_gen sus (tst0 mn mx) (map decode t)))
+                         :: map encode_obs (fst (run_gen sus gv (tst0 mn mx) (map decode t)))
       | None => map (fun _ => encode_obs rejected) ops
       end
   end.
-Definition pub_run := pub_run_gen advance_suspend_lk.
+Definition pub_run := pub_run_gen advance_suspend_lk get_value_lk.
 
-Definition pub_oracle_gen (strict : bool) (ops obsl : list (list Z)) : bool :=
-  Nat.eqb (length ops) (length obsl) &&
+(* the property oracle: the monitor's judgement on an observed trace (first line = the configuration line) *)
+Definition pub_oracle (ops obsl : list (list Z)) : bool :=
   match ops, obsl with
   | c :: t, _ :: ot =>
       match cfg_of c with
-      | Some (mn, mx) => good_b strict (mon_run (mon0 mn mx) (combine (map decode t) (map dec_obs ot)))
-      | None => true
+      | Some (mn, mx) => good_b (mon_run (mon0 mn mx) (map decode t) (map dec_obs ot))
+      | None => Nat.eqb (length ops) (length obsl)
       end
-  | _, _ => true
+  | [], [] => true
+  | _, _ => false
   end.
-Definition pub_oracle := pub_oracle_gen false.
-Definition pub_oracle_strict := pub_oracle_gen true.
